@@ -29,7 +29,10 @@ META = dict(
     text=("Theorems over the searcher model of C07: the denotation, the order under a distinguishing sort, order-insensitive "
           "aggregations, the summed collection statistics / document frequencies (no pending deletions) and MultiSearch over a "
           "partition depend only on the multiset of live documents; the model is tied to the code on every run by recomputing, "
-          "on the observed layouts of 13 differently built indexes per corpus, the ids every build returned."),
+          "on the observed layouts of about 20 differently built indexes per corpus (merged-then-fresh layered builds, offline "
+          "writer builds with batch counts around its merge fan-in), the ids every build returned. layout_independent_matches "
+          "is proved for arbitrarily nested boolean queries over term clauses (push-down off) and for flat ones with and "
+          "without the push-down (_partial: the leaves C07 does not cover yet)."),
     design_ref="DESIGN.md Part 2 C08",
     note=("Known findings: scores differ after merges (ice rewrites the field-length statistic; property text), scoring 'none' "
           "drops min-should (score_mode_none_same_set is refuted, witness replayed), the offline writer cannot build the empty "
@@ -37,4 +40,4 @@ META = dict(
     technique="Coq proof (permutation / sorting lemmas over the C07 model) + vm_compute correspondence on observed layouts + direct Go oracle",
 )
 
-ENGINE_TEXT = {"layout": "the same corpus built by 13 recipes, every build against one oracle answer; cases evaluated by Search/LayoutCorr.v"}
+ENGINE_TEXT = {"layout": "the same corpus built by about 20 recipes, every build against one oracle answer; cases evaluated by Search/LayoutCorr.v"}
